@@ -104,6 +104,32 @@ func c11R8(h H) {
 				}
 			}
 			return false, "the constant " + t.String() + " is not positive"
+		case *ssa.Parameter:
+			// what every static caller in the module passes (a function used as a value is not followed)
+			if f := t.Parent(); f != nil && f.Parent() == nil {
+				idx := -1
+				for k, p := range f.Params {
+					if p == t {
+						idx = k
+					}
+				}
+				sites := callSitesOf(h.p, f)
+				if idx >= 0 && len(sites) > 0 && len(sites) <= 6 {
+					for _, cs := range sites {
+						c := callOf(cs)
+						if c == nil || c.StaticCallee() != f || idx >= len(c.Args) {
+							return false, "a caller of " + shortFunc(f) + " cannot be followed"
+						}
+						if guardedPositive(c.Args[idx], cs) {
+							continue
+						}
+						if ok, why := positive(c.Args[idx], cs, depth+1, seen); !ok {
+							return false, "the caller at " + h.p.Pos(cs.Pos()) + " passes " + describe(c.Args[idx]) + " (" + why + ")"
+						}
+					}
+					return true, ""
+				}
+			}
 		case *ssa.Convert:
 			return positive(t.X, at, depth+1, seen)
 		case *ssa.ChangeType:
